@@ -547,9 +547,9 @@ pub fn exec(pool: &mut Pool, ev: &mut Value) {
                 for b in ev["batch"].as_array().cloned().unwrap_or_default() {
                     out1.push(run_grid(&**x, b["m"].as_str().unwrap(), &b["cs"], &b["as"]));
                 }
-                // the second pass asks every grid with its symbols in reverse order
+                // the second pass asks every grid with its symbols and its arguments in reverse order
                 for b in ev["batch"].as_array().cloned().unwrap_or_default() {
-                    out2.push(run_grid_perm(&**x, b["m"].as_str().unwrap(), &b["cs"], &b["as"], 1));
+                    out2.push(run_grid_perm(&**x, b["m"].as_str().unwrap(), &b["cs"], &b["as"], 3));
                 }
                 let d1 = x.ser();
                 same = match (d0, d1) {
